@@ -19,7 +19,9 @@ REAL, STUBS, ASSUMPTIONS = netcheck.REAL, netcheck.STUBS, netcheck.ASSUMPTIONS
 REQUIRED_PROBES = ["ids_handed_out", "restarts_with_persistence", "id_space_exhausted"]
 WEIGHTS = {"idreq": 22, "adopt": 6, "present_node": 10, "present_child": 4, "value": 5, "advance": 10, "restart": 5,
            "req": 1, "ctl_set": 1, "ctl_fw": 0, "stream_cfg": 0, "stream_blk": 0, "stream_bad": 0, "stream_other": 0,
-           "garbage": 1, "invalid_frame": 1, "unknown_traffic": 1, "internal_other": 1}
+           "garbage": 1, "invalid_frame": 1, "unknown_traffic": 1, "internal_other": 1,
+           # smart-sleep traffic: replies and desired values parked for sleeping nodes are part of what a save has to cope with
+           "heartbeat": 3, "presleep": 3, "config": 2, "time": 1, "ctl_set": 2}
 FLAVOURS = ["serial", "tcp", "aserial", "atcp", "mqtt", "amqtt"]
 
 
@@ -28,7 +30,7 @@ def gen(rng, tier, index):
     if cfg["flavour"] in ("mqtt", "amqtt"):
         cfg["in_prefix"] = rng.choice(["", "gw-out"])
         cfg["out_prefix"] = rng.choice(["", "gw-in"])
-    ops = netgen.make_ops(rng, cfg["version"], rng.randint(12, 50), WEIGHTS, nodes=(1, 3))
+    ops = netgen.make_ops(rng, cfg["version"], rng.randint(12, 50), WEIGHTS, nodes=(1, 3), scenario=0.2)
     if cfg["persistence"] and cfg["flavour"] not in ("mqtt", "amqtt") and rng.random() < 0.3:
         # an id request that arrives while a scheduled save is being written (pre-emptive schedule),
         # then a clean stop and restart, then another id request
